@@ -2,13 +2,19 @@
   C06 — Outbound SMTP DATA cannot be terminated or hijacked by message content.
 
   Model: `Nq.SmtpOut.rblast` (qmail-remote.c `blast()`), tied to the source by the exhaustive
-  differential harness `harness/c06_blast.c`.  Only property theorems live here.
+  differential harness `harness/c06_blast.c` AND by translation: the whole body of `blast()` is extracted from the
+  current qmail-remote.c into `Nq.Gen.RemoteBlast.prog` (a `Nq.CFlow.Stmt`) on every run; the `C06_source_*` theorems at
+  the end show that its meaning is this automaton.  Only property theorems live here.
 -/
 import Nq.Lemmas.SmtpSim
+import Nq.Lemmas.RemoteSrc.Main
 import Nq.Lemmas.SmtpDecode
 import Nq.Lemmas.SmtpWire
 import Nq.Lemmas.SmtpIO
 import Nq.Lemmas.SmtpPrefix
+import Nq.Lemmas.SmtpRefuse
+import Nq.Lemmas.SmtpEnv
+import Nq.Lemmas.SmtpEnvCRLF
 
 namespace Nq.Props.C06
 open Nq Nq.SmtpOut Nq.SmtpIn Nq.Wire Nq.Lemmas
@@ -282,5 +288,204 @@ example : (match oblast (istart 2 [97, 10, 98] [1]) (ostart 3 []) with | .partia
   decide
 
 end chunking
+
+/-! ### The exact refusal criterion (session 4)
+
+`perm_partialline()` is reached exactly when the message, *read the way the encoder reads it*, does not end in a
+line end.  Stated (a) through `canon m` - what a conforming receiver would have stored -, (b) on the raw bytes:
+the message is a part `p` that does not end in CR followed by a run of `k` CRs (`trailing_crs`: every message is);
+with `k = 0` the last byte decides, with `k > 0` the **parity** of the run does, because the look-ahead after a CR
+takes the next CR as data (`C06_canon_crcr`): `a CR` is sent, `a CR CR` is refused, `a CR CR CR` is sent. -/
+
+/-- **Refused ⇔ `canon m` is non-empty and does not end in LF.** -/
+theorem C06_refused_canon (m : Bytes) :
+    rblast m = none ↔ (canon m ≠ [] ∧ (canon m).getLast? ≠ some LF) := by
+  rw [rblast_none_iff_mid]
+  rcases List.eq_nil_or_concat m with rfl | ⟨q, x, rfl⟩
+  · simp [rstate, canon, crun, cfinish]
+  · rw [List.concat_eq_append, snoc_mid_iff]
+    have hne : canon (q ++ [x]) ≠ [] := by rw [Ne, canon_eq_nil_iff]; simp
+    simp [hne]
+
+/-- Complement: **transmitted ⇔ `canon m` is empty or ends in LF**, and then the transmission is everything
+emitted for the bytes of `m` followed by the terminator (`CR LF` first if the last line was ended by a final CR). -/
+theorem C06_accepted_canon (m : Bytes) :
+    (∃ e, rblast m = some e) ↔ (canon m = [] ∨ (canon m).getLast? = some LF) := by
+  have h := C06_refused_canon m
+  cases hr : rblast m with
+  | none =>
+    rw [hr] at h
+    have := h.mp rfl
+    constructor
+    · rintro ⟨e, he⟩; cases he
+    · rintro (h1 | h1)
+      · exact absurd h1 this.1
+      · exact absurd h1 this.2
+  | some e =>
+    rw [hr] at h
+    simp only [reduceCtorEq, false_iff, not_and, Decidable.not_not] at h
+    constructor
+    · intro _
+      by_cases hc : canon m = []
+      · exact Or.inl hc
+      · exact Or.inr (h hc)
+    · intro _; exact ⟨e, rfl⟩
+
+/-- **Refused, on the raw bytes**: `m = p ++ CR^k` with `p` not ending in CR.  `k = 0`: refused iff `p` is
+non-empty and does not end in LF; `k > 0`: refused iff `k` is even. -/
+theorem C06_refused_bytes (p : Bytes) (k : Nat) (hp : p.getLast? ≠ some CR) :
+    rblast (p ++ List.replicate k CR) = none ↔
+      if k = 0 then (p ≠ [] ∧ p.getLast? ≠ some LF) else k % 2 = 0 := by
+  rw [rblast_none_iff_mid, rstate_append, rstate_nocr_end p hp]
+  by_cases hk : k = 0
+  · subst hk
+    by_cases h1 : p = []
+    · simp [h1, rstate]
+    · by_cases h2 : p.getLast? = some LF <;> simp [h1, h2, rstate]
+  · have hne : (if p = [] then RSt.top else if p.getLast? = some LF then .top else .mid) ≠ .cr := by
+      by_cases h1 : p = [] <;> by_cases h2 : p.getLast? = some LF <;> simp [h1, h2]
+    rw [(rstate_crs k).1 _ hne (by omega)]
+    simp only [hk, if_false]
+    by_cases hpar : k % 2 = 1
+    · simp [hpar]
+    · simp only [hpar, if_false, true_iff]; omega
+
+/-- the hypothesis of `C06_refused_bytes` excludes nothing: every message has that shape -/
+theorem C06_refused_bytes_cover (m : Bytes) :
+    ∃ p k, m = p ++ List.replicate k CR ∧ p.getLast? ≠ some CR := trailing_crs m
+
+/-- Non-vacuity: `a CR` is sent, `a CR CR` refused (canon = `a LF CR`), `a CR CR CR` sent, `a LF` sent, `a` refused. -/
+example : rblast [97, 13] ≠ none ∧ rblast [97, 13, 13] = none ∧ rblast [97, 13, 13, 13] ≠ none ∧
+    rblast [97, 10] ≠ none ∧ rblast [97] = none ∧ canon [97, 13, 13] = [97, 10, 13] := by decide
+example : ([97] : Bytes).getLast? ≠ some CR ∧ ([97] : Bytes) ++ List.replicate 2 CR = [97, 13, 13] := by decide
+
+/-! ### The envelope commands around `blast()` (session 4)
+
+`MAIL FROM:<…>` / `RCPT TO:<…>` are written from `addrmangle(argv[i])` (`Nq.SmtpEnv.mangle`).  `addrmangle` never
+refuses and never removes a byte: an address without '@' and the part after the last '@' are copied as they are,
+the part before it goes through `quote()`, which only *adds* `"` … `"` and backslashes.  So the command line is one
+line exactly when the address brings no CR and no LF - the code itself keeps nothing out (observation in
+notes/C06.md; C06's text is about message *content*, the envelope is the caller's). -/
+
+open Nq.SmtpEnv in
+/-- every byte other than `"` and `\` (in particular CR and LF) is on the command line iff it is in the address -/
+theorem C06_envelope_bytes (x : Byte) (h1 : x ≠ BSL) (h2 : x ≠ DQ) (a : Bytes) : x ∈ mangle a ↔ x ∈ a :=
+  mem_mangle x h1 h2 a
+
+open Nq.SmtpEnv in
+/-- **Each envelope command is exactly one line iff the address is free of CR and LF** (`pre` = "MAIL FROM:<" or
+"RCPT TO:<", or any CR/LF-free bytes).  Both directions: clean addresses (however strange otherwise: quotes,
+backslashes, '<', '>', several '@', bytes ≥ 128) cannot break the line; an address with a CR or LF always does -
+neither `addrmangle` nor `quote` removes it. -/
+theorem C06_envelope_one_line (pre a : Bytes) (hp : CR ∉ pre ∧ LF ∉ pre) :
+    isOneLine (cmdLine pre a) = true ↔ cleanAddr a = true := by
+  have e : cmdLine pre a = (pre ++ mangle a ++ [GT]) ++ [CR, LF] := by simp [cmdLine]
+  rw [e, isOneLine_iff]
+  have hc := mem_mangle CR (by decide) (by decide) a
+  have hl := mem_mangle LF (by decide) (by decide) a
+  simp only [List.mem_append, List.mem_singleton, hc, hl, cleanAddr, Bool.and_eq_true, Bool.not_eq_true',
+    List.contains_eq_mem, decide_eq_false_iff_not]
+  have g1 : CR ≠ GT := by decide
+  have g2 : LF ≠ GT := by decide
+  constructor
+  · rintro ⟨h1, h2⟩
+    exact ⟨fun h => h1 (Or.inl (Or.inr h)), fun h => h2 (Or.inl (Or.inr h))⟩
+  · rintro ⟨h1, h2⟩
+    refine ⟨?_, ?_⟩
+    · rintro ((h | h) | h)
+      · exact hp.1 h
+      · exact h1 h
+      · exact g1 h
+    · rintro ((h | h) | h)
+      · exact hp.2 h
+      · exact h2 h
+      · exact g2 h
+
+open Nq.SmtpEnv in
+/-- The excluded inputs, concretely: whatever follows a CR LF **after the last '@'** (or anywhere in an address
+without '@') is copied to the connection as it is - the peer reads `x ++ ">"` as the next command line. -/
+theorem C06_envelope_verbatim_tail (pre b h x : Bytes) (hh : SmtpEnv.AT ∉ h) (hx : SmtpEnv.AT ∉ x) :
+    cmdLine pre (b ++ SmtpEnv.AT :: (h ++ [CR, LF] ++ x)) = pre ++ quote b ++ SmtpEnv.AT :: h ++ [CR, LF] ++ x ++ [GT, CR, LF] := by
+  have hn : SmtpEnv.AT ∉ h ++ [CR, LF] ++ x := by
+    simp only [List.mem_append, List.mem_cons, List.not_mem_nil, or_false, not_or]
+    exact ⟨⟨hh, by decide, by decide⟩, hx⟩
+  rw [cmdLine, mangle, lastAt_append b _ hn]
+  simp
+
+open Nq.SmtpEnv in
+/-- …and an address without '@' is not touched at all. -/
+theorem C06_envelope_noat (pre a : Bytes) (h : SmtpEnv.AT ∉ a) : cmdLine pre a = pre ++ a ++ [GT, CR, LF] := by
+  simp [cmdLine, mangle, lastAt_of_not_mem h]
+
+open Nq.SmtpEnv in
+/-- Non-vacuity: `a"b\@h` is one line (`MAIL FROM:<"a\"b\\"@h>`); `a@h CR LF Q` is two. -/
+example : isOneLine (cmdLine mailPre [97, 34, 98, 92, 64, 104]) = true ∧
+    cmdLine mailPre [97, 34, 98, 92, 64, 104] = mailPre ++ [34, 97, 92, 34, 98, 92, 92, 34, 64, 104, 62, 13, 10] ∧
+    isOneLine (cmdLine mailPre [97, 64, 104, 13, 10, 81]) = false ∧
+    cmdLine mailPre [97, 64, 104, 13, 10, 81] = mailPre ++ [97, 64, 104, 13, 10, 81, 62, 13, 10] ∧
+    (CR ∉ mailPre ∧ LF ∉ mailPre) ∧ (CR ∉ rcptPre ∧ LF ∉ rcptPre) := by decide
+
+open Nq.SmtpEnv in
+/-- **Where a peer that ends lines at CR LF only (RFC 5321) sees an extra line end**: an adjacent CR LF is in the mangled
+address iff it is in the part copied as it is - the whole address when there is no '@', otherwise the part after the
+last '@'.  In the part before the last '@' `quote()` puts a backslash before every CR and every LF, so no CR LF pair
+survives there (the bare LF / bare CR do: `C06_envelope_one_line`). -/
+theorem C06_envelope_crlf (a : Bytes) : hasCRLF (mangle a) = crlfSpec a := by
+  rw [hasCRLF_mangle]; rfl
+
+open Nq.SmtpEnv in
+/-- Non-vacuity: `a CR LF b @ h` → `"a \\ CR \\ LF b"@h`, no CR LF pair; `a @ h CR LF b` keeps it. -/
+example : hasCRLF (mangle [97, 13, 10, 98, 64, 104]) = false ∧ mangle [97, 13, 10, 98, 64, 104] = [34, 97, 92, 13, 92, 10, 98, 34, 64, 104] ∧
+    hasCRLF (mangle [97, 64, 104, 13, 10, 98]) = true := by decide
+
+
+/-! ### The text of `blast()` as it is in qmail-remote.c now
+
+`Nq.Gen.RemoteBlast.prog` is regenerated from the clang AST of the source on every run (tools/extractors/c06.py, tools/cflow.py);
+`Nq.CFlow.advance` gives it its meaning (small-step with an explicit continuation, run from read point to read point).  The
+continuations at the three `substdio_get` calls are the control points `kTop`, `kMid`, `kCr`. -/
+section source
+open Nq.CFlow Nq.RemoteSrc
+
+/-- **The table.** The extracted function runs from its start to the first read without writing anything; resumed at the control
+point of automaton state `s` with a byte it runs to the control point of `(rstep s c).1` having put exactly `(rstep s c).2`; with
+the end of the input it returns (top: `flagcritical = 1`, ". CR LF", flush), refuses the message (mid: `perm_partialline()`), or
+completes the line and reads again at the top (cr); with a read error it calls `temp_read()`.  Whatever stale byte is in `ch`.
+(Exhaustive kernel evaluation of the interpreter over 3 control points x 256 bytes x 3 kinds of read result.) -/
+theorem C06_source_table (s : RSt) (c : Byte) :
+    start = .atGet kTop [] ∧
+    resume FUEL (kOf s) c.toNat 1 = .atGet (kOf (rstep s c).1) (putEvs (rstep s c).2) ∧
+    resume FUEL (kOf s) c.toNat 0 = eofExpect s ∧ resume FUEL (kOf s) c.toNat 2 = .exited 0 [] := by
+  have h := tab s c.toNat c.toNat_lt
+  simp only [UInt8.ofNat_toNat] at h
+  exact ⟨start_eq, h⟩
+
+/-- **The whole extracted function over any message is the encoder**: fed the bytes of `m` and then the end of the input, it
+returns iff `rblast m` is defined, having put exactly `rblast m`; otherwise it calls `perm_partialline()` having put exactly
+`rpart .top m` (what C06_prefix_no_terminator speaks about).  No other outcome exists. -/
+theorem C06_source_spec (m : Bytes) :
+    view (feed kTop (m.map (fun b => b.toNat))) =
+      some (rblast m, match rblast m with | some e => e | none => rpart .top m) := by
+  have h := feed_eq m .top
+  simp only [kOf] at h
+  rw [h, mrun_view m .top]
+  rfl
+
+/-- **Where the "possible duplicate" flag is raised** (C09's clause, read off the source text): when the extracted function returns,
+`flagcritical = 1` was executed exactly once, after every byte of the message was put, immediately before ". CR LF", and the
+function's only flush comes right after those three bytes. -/
+theorem C06_source_critical (m : Bytes) (evs : List Ev) (h : feed kTop (m.map (fun b => b.toNat)) = .finished evs) :
+    ∃ pre, evs = pre ++ [.crit, .put 46, .put 13, .put 10, .flush] ∧ Ev.crit ∉ pre ∧ Ev.flush ∉ pre := by
+  have h2 := feed_eq m .top
+  simp only [kOf] at h2
+  rw [h2] at h
+  exact mrun_crit m .top evs h
+
+/-- Non-vacuity: the extracted source on "a CR . LF" (a bare CR followed by a dot: the class of defect b886fc3) and on a partial line. -/
+example : view (feed kTop [97, 13, 46, 10]) = some (some [97, 13, 10, 46, 46, 13, 10, 46, 13, 10], [97, 13, 10, 46, 46, 13, 10, 46, 13, 10]) := by
+  decide +kernel
+example : view (feed kTop [97, 10, 98]) = some (none, [97, 13, 10, 98]) := by decide +kernel
+
+end source
 
 end Nq.Props.C06
